@@ -173,7 +173,7 @@ def ValidRun (K : Keys) (u0 : UT) : State → List Op → Prop
   | s, op :: r => ValidOp u0 s op ∧ ValidRun K u0 (step K s op) r
 
 theorem step_pool_chainInv {u0 : UT} {ν : OutPoint → Nat} (K : Keys) (s : State) (op : Op)
-    (hb : ∀ h txs mf, op ≠ .block h txs mf) (hu : ∀ mf, op ≠ .undo mf) (hc : ChainInv u0 ν s) :
+    (hb : ∀ h txs mf, op ≠ .block h txs mf) (hu : ∀ uh mf, op ≠ .undo uh mf) (hc : ChainInv u0 ν s) :
     ChainInv u0 ν (step K s op) := by
   obtain ⟨e1, e2, _⟩ := step_env_pool K s op hb hu
   exact hc.of_eq e2.symm e1.symm
@@ -186,22 +186,22 @@ theorem step_chainInv {K : Keys} {W : Tx → Prop} {rank : TxId → Nat} {u0 : U
   | block hh txs mf =>
     obtain ⟨cs, ci⟩ := connect_sound_model U s hh txs hc hv hW
     exact ⟨cs, ci.of_env (blockMined_env K mf _ txs)⟩
-  | undo mf =>
+  | undo uh mf =>
     refine ⟨fun s' txs hd => (undo_sound_model s s' txs hc hd).1, ?_⟩
     simp only [step]
     cases hd : disconnectUtxo s with
     | none => exact hc
     | some p =>
       obtain ⟨s', txs⟩ := p
-      exact (undo_sound_model s s' txs hc hd).2.of_env (blockUndone_env K mf s' txs)
-  | submitNet t tr mf => exact ⟨trivial, step_pool_chainInv K s _ (fun _ _ _ e => by cases e) (fun _ e => by cases e) hc⟩
-  | submitLocal t mf => exact ⟨trivial, step_pool_chainInv K s _ (fun _ _ _ e => by cases e) (fun _ e => by cases e) hc⟩
-  | tip hh => exact ⟨trivial, step_pool_chainInv K s _ (fun _ _ _ e => by cases e) (fun _ e => by cases e) hc⟩
-  | expire old => exact ⟨trivial, step_pool_chainInv K s _ (fun _ _ _ e => by cases e) (fun _ e => by cases e) hc⟩
-  | evict v => exact ⟨trivial, step_pool_chainInv K s _ (fun _ _ _ e => by cases e) (fun _ e => by cases e) hc⟩
-  | resort => exact ⟨trivial, step_pool_chainInv K s _ (fun _ _ _ e => by cases e) (fun _ e => by cases e) hc⟩
-  | commitFlag y => exact ⟨trivial, step_pool_chainInv K s _ (fun _ _ _ e => by cases e) (fun _ e => by cases e) hc⟩
-  | reload => exact ⟨trivial, step_pool_chainInv K s _ (fun _ _ _ e => by cases e) (fun _ e => by cases e) hc⟩
+      exact (undo_sound_model s s' txs hc hd).2.of_env (blockUndoneAt_env K mf s' uh txs)
+  | submitNet t tr mf => exact ⟨trivial, step_pool_chainInv K s _ (fun _ _ _ e => by cases e) (fun _ _ e => by cases e) hc⟩
+  | submitLocal t mf => exact ⟨trivial, step_pool_chainInv K s _ (fun _ _ _ e => by cases e) (fun _ _ e => by cases e) hc⟩
+  | tip hh => exact ⟨trivial, step_pool_chainInv K s _ (fun _ _ _ e => by cases e) (fun _ _ e => by cases e) hc⟩
+  | expire old => exact ⟨trivial, step_pool_chainInv K s _ (fun _ _ _ e => by cases e) (fun _ _ e => by cases e) hc⟩
+  | evict v => exact ⟨trivial, step_pool_chainInv K s _ (fun _ _ _ e => by cases e) (fun _ _ e => by cases e) hc⟩
+  | resort => exact ⟨trivial, step_pool_chainInv K s _ (fun _ _ _ e => by cases e) (fun _ _ e => by cases e) hc⟩
+  | commitFlag y => exact ⟨trivial, step_pool_chainInv K s _ (fun _ _ _ e => by cases e) (fun _ _ e => by cases e) hc⟩
+  | reload => exact ⟨trivial, step_pool_chainInv K s _ (fun _ _ _ e => by cases e) (fun _ _ e => by cases e) hc⟩
 
 /-- a history of valid blocks (and arbitrary undos and pool operations) is admissible, and the history invariant holds
     at its end -/
@@ -273,7 +273,7 @@ theorem valid (cfg : Cfg) : BlockValid u0 (genesis cfg u0 0) [t1, t2] := by
     · exact notConf _ (by decide)
 
 theorem validRun (K : Keys) (cfg : Cfg) :
-    ValidRun K u0 (genesis cfg u0 0) [.block 1 [t1, t2] 0, .undo 0] :=
+    ValidRun K u0 (genesis cfg u0 0) [.block 1 [t1, t2] 0, .undo 1 0] :=
   ⟨valid cfg, trivial, trivial⟩
 end ChainExample
 
